@@ -111,6 +111,12 @@ STRENGTHENED = {
                         "against the literal 0) and negative states at the third observation point",
     "C13-mut_C13-r4m2": "an edit-history defect (make_variable_static turning an initial assignment into a derived quantity): outside "
                         "what C13 exercises; caught by C03, see C03-mut_C13-r4m2",
+    "C12-mut_C12-r4m2": "missed at first (initial conditions rebuilt with computed variables last: symbolic variables and equations "
+                        "misaligned); ModelEval declares an assignment-defined variable before or after the plain ones",
+    "C08-mut_C08-r3m1": "missed at first (n-ary min / max exported with two arguments); SbmlRoundTrip library functions with 3- and "
+                        "4-argument min / max and a three-link comparison chain, every position in turn the extremum",
+    "C17-mut_C17-r3m1": "a dependency-sorting defect (iteration bound 2n): chains of four or more rules listed against their "
+                        "dependencies are beyond C17's documents; caught by C02, the owning check, see C02-mut_C17-r3m1",
 }
 rows = []
 for d in sorted(p for p in root.iterdir() if p.is_dir()):
